@@ -14,9 +14,9 @@ Programs == JsonDeserialize(IOEnv.PROGRAMS_FILE)
 
 JInit == \E i \in 1..Len(Programs) :
            /\ i % NShards = Shard
-           /\ stmts = Programs[i] /\ stack = <<>> /\ leaves = 0 /\ nodes = 0 /\ used = 0
+           /\ stmts = Programs[i].stmts /\ verbat = Programs[i].verbat /\ stack = <<>> /\ leaves = 0 /\ nodes = 0 /\ used = 0
            /\ kinds = [n \in 1..MaxNames |-> ""] /\ phase = "done"
-           /\ terms = TermsOfStmts(Programs[i]) /\ nameseq = FirstSeen(TermsOfStmts(Programs[i]), <<>>)
+           /\ terms = TermsOfStmts(Programs[i].stmts) /\ nameseq = FirstSeen(TermsOfStmts(Programs[i].stmts), <<>>)
 JNext == UNCHANGED vars
 JTypeOK == phase = "done"
 =============================================================================
